@@ -351,6 +351,7 @@ func referenceGraphs(c *engine.Ctx) {
 func Run(c *engine.Ctx) {
 	referenceGraphs(c)
 	decoderMembers(c)
+	streamKindsGroup(c)
 	rw.SilenceStdout()
 	faults := jsonfault.Faults()
 	var light []jsonfault.Fault
